@@ -22,6 +22,12 @@ namespace TrRouting {
     lastConnection = cache;
   }
 
+  void ScenarioConnectionCacheOne::clear() {
+    std::unique_lock lock(mutex); //Exclusive lock when writing
+    lastUuid.reset();
+    lastConnection.reset();
+  }
+
   // ScenarioConnectionCacheAll
   std::optional<std::shared_ptr<ConnectionSet>> ScenarioConnectionCacheAll::get(boost::uuids::uuid uuid) const {
     std::shared_lock lock(mutex); //Sharing lock when reading
@@ -38,5 +44,10 @@ namespace TrRouting {
     spdlog::debug("Caching connection set for scenario {}", boost::uuids::to_string(uuid));
     std::unique_lock lock(mutex); //Exclusive lock when writing
     connectionSets[uuid] = cache;
+  }
+
+  void ScenarioConnectionCacheAll::clear() {
+    std::unique_lock lock(mutex); //Exclusive lock when writing
+    connectionSets.clear();
   }
 }
